@@ -115,7 +115,8 @@ class Monitor(object):
                     if spec["rule"] == "any":
                         exp = pre[1:]
                     else:
-                        rest = [x for x in group if x != d]
+                        rest = list(group)
+                        rest.remove(d)           # ONE occurrence: a group may list a node twice (two visits owed)
                         exp = ([rest] if rest else []) + pre[1:]
                     if [list(g) for g in ind.route] != [list(g) for g in exp]:
                         self.violate("flexible_route_not_consumed", dict(ctx, before=pre, after=[list(g) for g in ind.route], expected=exp))
@@ -241,6 +242,10 @@ def focused(tier):
             out.append(cfg("flex %s %s" % (rule, choice), fam, n3(),
                            {"A": klass([ARR, None, None], srv3, route={"t": "flex", "rule": rule, "choice": choice, "routes": [[[2, 3]], [[2, 3], [1]], []]})},
                            K=K if choice == "random" else 2, T=12.0, D=Dl + 1, features=["flex"]))
+    for choice in ("random", "jsq"):
+        out.append(cfg("flex all %s, node listed twice in a group" % choice, fam, n3(),
+                       {"A": klass([ARR, None, None], srv3, route={"t": "flex", "rule": "all", "choice": choice, "routes": [[[2, 2, 3]], [[3, 3], [1]], []]})},
+                       K=2, T=14.0, D=Dl + 1, features=["flex"]))
     # class change matrices with zero cells, with priorities
     ccm = {"A": {"A": 0.5, "B": 0.5}, "B": {"A": 0.0, "B": 1.0}}
     for prA, prB in ((1, 0), (0, 1), (0, 0)):
